@@ -7,6 +7,10 @@ CLAIMED = {
  "C01": dict(engine="dirmodel", design="DESIGN.md section 4 (C01)",
    text="Seeded exploration of directory histories (1-4 directories incl. missing/repeated, populations of valid/invalid/non-Spec files, 1-8 steps of creates, rewrites, temp+rename replacements, removals, renames, moves, mkdir/rm -r) in manual and automatic refresh mode on the simulated kernel; after every refresh point every query result (ListDevices, GetDevice path/priority/definition, ListVendors, ListClasses, GetVendorSpecs, GetErrors) is compared with an executable reference model of the precedence rule. Exploration is the right level: the space of histories is unbounded and the oracle is exact per run.",
    note="Trusted: the simulator (sim/memfs, sim/fsnotify stub, sim/sched), the rewriter, the reference model and the validity-by-construction generator; samples the space."),
+
+ "C13": dict(engine="dirmodel", design="DESIGN.md section 4 (C13)",
+   text="Seeded exploration of fault placements and repairs on the simulated kernel: invalid files of 15 kinds, unreadable files (non-root credential), dangling/looping/directory symlinks, configured directories that are missing, regular files, below a non-directory, unreadable or unsearchable, in every position of a 1-4 entry directory list; in manual mode additionally transient EIO/EMFILE injected into the scanner's own lstat/open/getdents/read calls and a concurrent mutator inside the scan window. After every Refresh(): isolation (every device of a readable valid file in a scannable directory resolves as the model says), reporting (entry for every failing Spec file, none for a healthy one), the Refresh() result, and repair (a clean Refresh clears every entry whose cause is gone).",
+   note="Trusted: simulator, model, generator. The relaxation under injected faults is computed from the exact calls the simulator failed (per directory index); fault-free and faulty refreshes are checked separately. Transient faults and the concurrent mutator are manual-mode only (in auto mode an explicit Refresh() does not rescan)."),
 }
 
 NA = {
@@ -21,7 +25,7 @@ NA = {
  "C10": "claimed in DESIGN.md; engine not built yet in this revision",
  "C11": "claimed in DESIGN.md; engine not built yet in this revision",
  "C12": "claimed in DESIGN.md; engine not built yet in this revision",
- "C13": "claimed in DESIGN.md; engine not built yet in this revision",
+
  "C14": "claimed in DESIGN.md; engine not built yet in this revision",
  "C15": "annotation helpers are pure functions on strings and maps",
  "C16": "claimed in DESIGN.md; engine not built yet in this revision",
@@ -55,7 +59,7 @@ man = {
    "add_only": True,
  },
  "engines": [
-   {"name": "dirmodel", "path": "harness/scen/dirmodel.go", "serves_properties": ["C01"], "kind_free_text": "directory histories vs reference model on the simulated kernel"},
+   {"name": "dirmodel", "path": "harness/scen/dirmodel.go", "serves_properties": ["C01", "C13"], "kind_free_text": "directory histories vs reference model on the simulated kernel"},
  ],
  "checks": checks,
  "not_applicable": [{"property_id": k, "reason": v} for k, v in sorted(NA.items()) if k not in CLAIMED],
